@@ -1154,7 +1154,7 @@ func genWeatherFault(sc *Scenario, r *Rng) {
 			if (Date{y, 12, 31}).Zeit() > e0 {
 				y--
 			}
-			if sc.End.M == 12 && sc.End.D >= 12 && r.Bool(0.5) {
+			if sc.End.M == 12 && sc.End.D >= 12 && !w.EndsMidYear && r.Bool(0.5) {
 				y = sc.End.Y
 			}
 			if y >= sc.Start.Y && (Date{y, 12, 31}).Zeit() > s0+25 {
